@@ -1,35 +1,11 @@
 /-
   Dispatcher of the line protocol: objects, handles, `step`.
 -/
-import PyProb.Driver.Parse
-import PyProb.Model.Hashes
-import PyProb.Model.Bitarray
+import PyProb.Driver.Obj
+import PyProb.Driver.Bloom
 
 namespace PyProb.Drv
 open PyProb
-
-inductive Obj
-  | bitarray (b : Bitarray)
-
-structure St where
-  objs : Std.HashMap Nat Obj := {}
-
-/-! ### hashes -/
-
-/-- menu of pure inner functions for `hash_with_depth_int`, mirrored in harness/corr/hashes.py -/
-def innerInt (name : String) : Option (Key → Nat → Nat) :=
-  match name with
-  | "fnvseed" => some fun k idx => fnv1a64 k (Int.ofNat (7 * idx + 3))
-  | "sumlen" => some fun k idx => (k.units.sum * 2654435761 + k.units.length * 97 + idx) % 18446744073709551616
-  | "small" => some fun k idx => (k.units.sum + idx) % 251
-  | _ => none
-
-/-- menu of pure inner functions for `hash_with_depth_bytes` -/
-def innerBytes (name : String) : Option (Bytes → Nat → Bytes) :=
-  match name with
-  | "fnvle" => some fun b idx => leBytes 8 (fnv1a64 ⟨false, b⟩ (Int.ofNat idx)) ++ b.take 3
-  | "chain" => some fun b idx => leBytes 8 (fnv1a64 ⟨false, b⟩ 0) ++ leBytes 4 (fnv1a32 ⟨false, b⟩ (Int.ofNat idx))
-  | _ => none
 
 def stepHashes (cmd : String) (args : List String) : String :=
   match cmd, args with
@@ -112,6 +88,8 @@ def step (st : St) (line : String) : St × String :=
             | none => (st, "bad-op")
             | some h =>
                 if cmd.startsWith "ba." then stepBitarray st cmd h args
+                else if cmd.startsWith "bf." then stepBloom st cmd h args
+                else if cmd.startsWith "cb." then stepCBF st cmd h args
                 else (st, "bad-op")
         | [] => (st, "bad-op")
 
